@@ -10,13 +10,36 @@ from .core import FuncInfo, Repo, is_logging_call, names_in, parent_map, unparse
 NEUTRAL_CALLS = {"len", "isinstance", "str", "type", "repr", "print", "bool"}
 
 
-def head_tests(node: ast.AST, var_src: str) -> List[ast.AST]:
-    """tests mentioning <var>[0]"""
+def head_aliases(node: ast.AST, var_src: str) -> Set[str]:
+    """local names bound to <var>[0] (possibly lower-cased / stripped), e.g. `node_head = node[0]`"""
+    out: Set[str] = set()
+    for n in ast.walk(node):
+        if isinstance(n, (ast.Assign, ast.AnnAssign)) and n.value is not None:
+            v = n.value
+            while isinstance(v, ast.Call) and isinstance(v.func, ast.Attribute) and v.func.attr in ("lower", "strip") and not v.args:
+                v = v.func.value
+            if isinstance(v, ast.Subscript) and isinstance(v.slice, ast.Constant) and v.slice.value == 0 and ast.unparse(v.value) == var_src:
+                tgts = n.targets if isinstance(n, ast.Assign) else [n.target]
+                for t in tgts:
+                    if isinstance(t, ast.Name):
+                        out.add(t.id)
+    return out
+
+
+def is_head_expr(s: ast.AST, var_src: str, aliases: Set[str]) -> bool:
+    if isinstance(s, ast.Subscript) and isinstance(s.slice, ast.Constant) and s.slice.value == 0 and ast.unparse(s.value) == var_src:
+        return True
+    return isinstance(s, ast.Name) and s.id in aliases
+
+
+def head_tests(node: ast.AST, var_src: str, scope: Optional[ast.AST] = None) -> List[ast.AST]:
+    """if statements (and conditional expressions) whose test mentions <var>[0] or a local alias of it"""
+    aliases = head_aliases(scope if scope is not None else node, var_src)
     out = []
     for n in ast.walk(node):
-        if isinstance(n, ast.If):
+        if isinstance(n, (ast.If, ast.IfExp)):
             for s in ast.walk(n.test):
-                if isinstance(s, ast.Subscript) and isinstance(s.slice, ast.Constant) and s.slice.value == 0 and ast.unparse(s.value) == var_src:
+                if is_head_expr(s, var_src, aliases):
                     out.append(n)
                     break
     return out
@@ -30,9 +53,35 @@ def taint_closure(stmts: List[ast.stmt], seed: Set[str]) -> Set[str]:
                 if isinstance(n, ast.Assign) and names_in(n.value) & t:
                     for tg in n.targets:
                         t |= C.target_names(tg)
+                elif isinstance(n, ast.AnnAssign) and n.value is not None and names_in(n.value) & t:
+                    t |= C.target_names(n.target)
                 elif isinstance(n, (ast.For, ast.comprehension)) and names_in(n.iter) & t:
                     t |= C.target_names(n.target)
     return t
+
+
+def derived_names(stmts: List[ast.stmt], tainted: Set[str]) -> Set[str]:
+    """names that hold the result of a (non-neutral, non-logging) call on tainted arguments: handing such a name on / returning it
+    hands the processed node on"""
+    out: Set[str] = set()
+    for _ in range(3):
+        for s in stmts:
+            for n in ast.walk(s):
+                if isinstance(n, (ast.Assign, ast.AnnAssign)) and n.value is not None:
+                    v = n.value
+                    ok = isinstance(v, ast.Name) and v.id in out
+                    for c in ast.walk(v):
+                        if isinstance(c, ast.Call) and not is_logging_call(c) and ast.unparse(c.func) not in NEUTRAL_CALLS and \
+                                any(names_in(a) & tainted for a in list(c.args) + [k.value for k in c.keywords]):
+                            ok = True
+                    if ok:
+                        tgts = n.targets if isinstance(n, ast.Assign) else [n.target]
+                        for t in tgts:
+                            out |= C.target_names(t)
+    return out
+
+
+_DERIVED: Set[str] = set()
 
 
 def consumes(stmt: Optional[ast.AST], tainted: Set[str]) -> bool:
@@ -63,8 +112,12 @@ def consumes(stmt: Optional[ast.AST], tainted: Set[str]) -> bool:
         tg = stmt.targets if isinstance(stmt, ast.Assign) else [stmt.target]
         if any(isinstance(t, (ast.Attribute, ast.Subscript)) for t in tg) and names_in(stmt.value) & tainted:
             return True
-    if isinstance(stmt, ast.Return) and stmt.value is not None and names_in(stmt.value) & tainted and not isinstance(stmt.value, ast.Name):
+    if isinstance(stmt, ast.Return) and stmt.value is not None and names_in(stmt.value) & tainted and \
+            (not isinstance(stmt.value, ast.Name) or stmt.value.id in _DERIVED):
         return True
+    if isinstance(stmt, ast.Assign) and len(stmt.targets) == 1 and isinstance(stmt.targets[0], ast.Name) and stmt.targets[0].id.startswith("__ret__") \
+            and names_in(stmt.value) & tainted and (not isinstance(stmt.value, ast.Name) or stmt.value.id in _DERIVED):
+        return True     # the `return <expr>` of a helper analysed in place
     if isinstance(stmt, ast.Expr) and isinstance(stmt.value, (ast.Yield, ast.YieldFrom)) and stmt.value.value is not None \
             and names_in(stmt.value.value) & tainted:
         return True
@@ -82,6 +135,8 @@ def silent_drop_paths(body: List[ast.stmt], seed: Set[str]) -> Tuple[int, List[D
     """Acyclic paths through `body` (a loop body or a function body) on which the node bound to `seed` is neither
     consumed nor rejected (raise).  Returns (number of paths, offending paths)."""
     tainted = taint_closure(body, seed)
+    _DERIVED.clear()
+    _DERIVED.update(derived_names(body, tainted))
     g = C.build(body)
     bad: List[DropPath] = []
     npaths = 0
@@ -143,7 +198,7 @@ def node_loops(f: FuncInfo, min_tests: int = 2) -> List[Tuple[ast.For, str]]:
     out = []
     for n in ast.walk(f.node):
         if isinstance(n, ast.For) and isinstance(n.target, ast.Name):
-            tests = head_tests(ast.Module(body=n.body, type_ignores=[]), n.target.id)
+            tests = head_tests(ast.Module(body=n.body, type_ignores=[]), n.target.id, scope=n)
             if len(tests) >= min_tests:
                 out.append((n, n.target.id))
     return out
@@ -158,4 +213,16 @@ def node_functions(f: FuncInfo, min_tests: int = 1) -> List[str]:
         tests = head_tests(f.node, p)
         if len(tests) >= min_tests:
             out.append(p)
+    return out
+
+
+def inlined_handlers(f: FuncInfo, min_tests: int = 1) -> List[Tuple[str, List[ast.stmt], str]]:
+    """(helper name, statements, local name bound to the helper's node parameter) for helpers analysed in place whose body
+    tests the head of one of their parameters"""
+    out = []
+    for qn, binds, stmts in getattr(f, "inlined_bodies", []) or []:
+        mod = ast.Module(body=list(stmts), type_ignores=[])
+        for orig, name in binds.items():
+            if len(head_tests(mod, name)) >= min_tests:
+                out.append((f"{qn.split('::')[-1]}({orig})", list(stmts), name))
     return out
